@@ -44,7 +44,7 @@ def creator(ch, out, cfgfile):
     return 0
 
 
-def handle(ch, out, ops):
+def handle(ch, out, ops, cfgfile=None):
     cluster = None
     promoted = False
     _CRASH["ch"], _CRASH["out"] = ch, os.path.abspath(out)
@@ -54,7 +54,7 @@ def handle(ch, out, ops):
         if "!" in op:
             op, k = op.split("!")
             crash = int(k)
-        if cluster is None and op not in ("load", "loadp"):
+        if cluster is None and op not in ("load", "loadp", "recreate"):
             break          # the load failed: there is no Cluster object to operate on
         if op == "demote" and not promoted:
             continue       # callers demote only what they were promoted to
@@ -68,6 +68,16 @@ def handle(ch, out, ops):
                 cluster, _ = Cluster.deserialize(out, deserialize_jobs=True)
             elif op == "loadp":
                 cluster, ok = Cluster.deserialize(out, try_promote_to_submitter=True, deserialize_jobs=True)
+            elif op == "recreate":
+                # jade submit-jobs --force on an existing output directory (cli/submit_jobs.py): rmtree, then a new submission
+                import shutil
+                from jade.jobs.job_configuration_factory import create_config_from_file
+                import time
+                time.sleep(1)          # a scheduling point of the harness: the command starts when the schedule says so
+                shutil.rmtree(out)
+                os.makedirs(out)
+                cluster = Cluster.create(out, create_config_from_file(cfgfile))
+                ok = True
             elif op == "promote":
                 ok = cluster.promote_to_submitter()
             elif op == "demote":
